@@ -548,15 +548,13 @@ func (pc *pathCheck) componentIn(v ssa.Value, at ssa.Instruction, depth int, fr 
 		if x.Op == token.MUL {
 			// element of a literal list
 			if ia, ok := x.X.(*ssa.IndexAddr); ok {
-				if sl, ok := ia.X.(*ssa.Slice); ok {
-					if elems, ok := variadicElems(sl); ok && len(elems) > 0 {
-						for _, e := range elems {
-							if ok, why := pc.componentIn(e, at, depth+1, fr); !ok {
-								return false, why
-							}
+				if elems, ok := literalListElems(ia); ok {
+					for _, e := range elems {
+						if ok, why := pc.componentIn(e, at, depth+1, fr); !ok {
+							return false, why
 						}
-						return true, ""
 					}
+					return true, ""
 				}
 			}
 			// captured variable with a single store
